@@ -5,6 +5,7 @@
 From Coq Require Import ZArith List.
 From Strand Require Import Base.ZUtil Model.Outcome Model.Codec Model.ZBackend Model.Rng Model.Exec
   Proofs.ZLaws Proofs.ZInst Proofs.CodecP Proofs.ListAlg Proofs.RngP Proofs.RngUniform.
+From Strand Require Import Model.Ristretto Model.RBackend Proofs.RistrettoWireP.
 Import ListNotations.
 Open Scope Z_scope.
 
@@ -91,3 +92,14 @@ Proof.
   - intro Hno. exact (gen_index_rejected_word f ub b0 b1 b2 b3 rest Hub Hv Hno).
 Qed.
 Print Assumptions C18_index_sampler_follows_blocks.
+
+(* ristretto: random exponents (64 stream bytes reduced mod l) and hashed challenges are in [0, l) for every input,
+   and every value of [0, l) is produced by some 64-byte stream prefix *)
+Theorem C18_ristretto_exponent_in_range_and_onto : forall K,
+  (forall s v rest, r_rnd_exp K s = Ok (v, rest) -> 0 <= v < ell) /\
+  (forall bs, 0 <= r_hash_to_exp K bs < ell) /\
+  (forall v rest, 0 <= v < ell -> exists s, bytes_ok s /\ length s = 64%nat /\ r_rnd_exp K (s ++ rest) = Ok (v, rest)).
+Proof.
+  intro K. split; [exact (r_rnd_exp_in_range K)|]. split; [exact (r_hash_to_exp_in_range K)|exact (r_rnd_exp_onto K)].
+Qed.
+Print Assumptions C18_ristretto_exponent_in_range_and_onto.
